@@ -13,7 +13,7 @@
    alternative encodings, each is witnessed below and in corpus/C02.json. *)
 From BP Require Import Base.Prelude Model.Types Model.Varint Model.Object Model.Decode Model.WellFormed Model.Canon.
 From BP Require Import Spec.Varint Spec.Wire.
-From BP Require Import Proofs.C02Abs Proofs.C02WireP Proofs.C02FinalP.
+From BP Require Import Model.Encode Proofs.C02Abs Proofs.C02WireP Proofs.C02FinalP Proofs.C02EncP.
 
 (* ---- framing layer: the relation and the function of the specification agree ---- *)
 Theorem C02_wire_ok_parse : forall bs rs, wire_ok bs rs -> parse_wire bs = Some rs.
@@ -59,6 +59,23 @@ Theorem C02_decode_refines_rel : forall sc c bs rs a,
 Proof. exact decode_refines_rel. Qed.
 Print Assumptions C02_decode_refines_rel.
 
+(* ---- encoder side (C02_encode_legal of the design), leaf layer only: the record _serialize_single writes for an
+        in-range scalar is a legal record (canonical tag / length of at most five bytes, canonical value varint)
+        and denotes that value under the specification.
+   PARTIAL: the message-level statement `in_range m -> exists rs, parse_wire (enc_obj m) = Some rs /\ sem rs = abs m`
+   is not proved (it is sampled on every run: harness/props/c02.py compares sem (enc_obj m) with abs_obj m inside Coq
+   for every generated message that meets `enc_faithful`).  Missing: the walk over fields, containers, nested
+   messages and float32 (whose rounding is modelled, not verified). ---- *)
+Theorem C02_encode_scalar_legal_partial : forall msg num t v se bs,
+  1 <= num < 2 ^ 29 -> scalar_in_range t v = true -> t <> TFloat ->
+  (forall s, v = PStr s \/ v = PBytes s -> Zlength s < 2 ^ 31) ->
+  serialize_with msg num t v se None = Ok bs ->
+  (bs = [] /\ se = false /\ (v = PStr [] \/ v = PBytes [])) \/
+  exists p, rec_ok bs (num, p) /\ scalar_of t p = Some (abs_scalar v) /\
+            (match p with Len _ => packable t = false | _ => True end).
+Proof. exact enc_scalar_record. Qed.
+Print Assumptions C02_encode_scalar_legal_partial.
+
 (* ---- non-vacuity and scope limits ---- *)
 Definition s_ (l : list byte) := l.
 Definition ex_sc : schema :=
@@ -94,6 +111,12 @@ Example C02_nonvacuous :
                 ASome (AMsg [AInt 1; AList []; ANone; ANone; AMap []; ANone; AInt 0; ANone; ANone] []);
                 AInt (-1); ASome (AMsg [AInt 3] []); ASome (AMsg [AInt 1; AInt 0] [])]
                [(75, Varint 1)]).
+Proof. vm_compute. repeat split. Qed.
+
+Example C02_encode_scalar_nonvacuous :
+  serialize_with no_msg 16 TSInt32 (PInt (-3)) false None = Ok [x80; x01; x05] /\
+  scalar_in_range TSInt32 (PInt (-3)) = true /\
+  parse_wire [x80; x01; x05] = Some [(16, Varint 5)] /\ scalar_of TSInt32 (Varint 5) = Some (AInt (-3)).
 Proof. vm_compute. repeat split. Qed.
 
 (* The scope limits are real: without [supported] the statement fails on the current tree.
